@@ -437,3 +437,100 @@ pub fn record(driver: &str, seed: u64, thorough: bool, out: &mut Out) -> Stats {
     s.stats.add("distinct_rate_time_settings", n);
     s.stats
 }
+
+// ---------------------------------------------------------------------------------------------
+// specification -> implementation: every transition of the dead-band graph (spec/Graph_Glide.cfg) on a
+// real GlideProcessor at 100 Hz. Times are multiples of 10 ms, no two of them exactly 50 ms apart.
+// set_time has no read-back; the observing operation "probe" feeds a step from rest and compares the
+// response, sample by sample, with that of a NEW processor that was given the time the specification says
+// is in effect (a first set_time is always honoured). Two processors with the same time in effect agree to
+// rounding (3e-4 is allowed); times one dead band apart differ by 8e-4 of the step or more within the 48
+// samples compared. At the fastest setting the statement's own bound is checked instead.
+
+pub struct GraphTarget {
+    out: Out,
+    gp: Option<GlideProcessor>,
+}
+
+impl GraphTarget {
+    pub fn new() -> Self {
+        GraphTarget { out: Out::memory(), gp: None }
+    }
+    fn log_p(&mut self, x: f32, y: f32) {
+        self.out.line(&format!("{{\"op\":\"p\",\"xk\":{},\"xq\":{},\"yq\":{},\"yk\":{}}}", key(x), q24(x), q24(y), key(y)));
+    }
+}
+
+const PROBE_SAMPLES: usize = 48;
+
+impl crate::graphrun::Target for GraphTarget {
+    fn fresh(&mut self) {
+        self.out = Out::memory();
+        self.out.line("{\"op\":\"new\",\"fs\":100,\"scale\":0}");
+        self.gp = guarded(|| GlideProcessor::new(100.0)).ok();
+    }
+    fn apply(&mut self, op: &serde_json::Value, p: &serde_json::Value) -> Vec<String> {
+        let panic_tags = |w: &str| -> Vec<String> { vec![format!("C14:panic-in-{}", w), format!("C13:panic-in-{}", w), "C17:panic".to_string()] };
+        if self.gp.is_none() {
+            return panic_tags("new");
+        }
+        match op["op"].as_str().unwrap() {
+            "set" => {
+                let t = op["t"].as_i64().unwrap() as f32 / 100.0;
+                let g = self.gp.as_mut().unwrap();
+                if guarded(|| g.set_time(t)).is_err() {
+                    self.gp = None;
+                    return panic_tags("set-time");
+                }
+                let us = ((t as f64) * 1e6).floor() as i64;
+                self.out.line(&format!("{{\"op\":\"st\",\"tk\":{},\"us\":{}}}", key(t), us));
+                Vec::new()
+            }
+            "probe" => {
+                let eff = p[0].as_i64().unwrap() as f32 / 100.0;
+                let mut g = self.gp.take().unwrap();
+                let r = guarded(|| {
+                    let mut reference = GlideProcessor::new(100.0);
+                    reference.set_time(eff);
+                    let mut ys = Vec::with_capacity(PROBE_SAMPLES);
+                    let mut worst = 0.0f32;
+                    for _ in 0..PROBE_SAMPLES {
+                        let y = g.process(1.0);
+                        let z = reference.process(1.0);
+                        let d = (y - z).abs();
+                        if !(d <= worst) {
+                            worst = if d.is_nan() { f32::INFINITY } else { d };
+                        }
+                        ys.push(y);
+                    }
+                    (ys, worst)
+                });
+                match r {
+                    Ok((ys, worst)) => {
+                        // the probe moved the filter state: the object is not used again (the graph's sink)
+                        // at the fastest setting the only promise is "settled within 8 samples" (a new processor
+                        // and one told a time below two samples need not be the same filter)
+                        let fastest = p[0].as_i64().unwrap() <= 2;
+                        let bad = if fastest { !(ys[7] >= 0.995 && ys[7] <= 1.0001) } else { worst > 3.0e-4 };
+                        for y in ys {
+                            self.log_p(1.0, y);
+                        }
+                        if bad {
+                            vec!["C14:graph-time-in-effect".to_string()]
+                        } else {
+                            Vec::new()
+                        }
+                    }
+                    Err(_) => panic_tags("process"),
+                }
+            }
+            other => {
+                eprintln!("unknown glide graph op {}", other);
+                std::process::exit(2)
+            }
+        }
+    }
+    fn trace(&self) -> Vec<String> {
+        self.out.mem.clone()
+    }
+}
